@@ -806,16 +806,28 @@ class Model(Object):
                 reverse = reaction.reverse_variable
 
                 if context:
-                    obj_coef = reaction.objective_coefficient
-
-                    if obj_coef != 0:
-                        # resolve objective and variables when undoing, they
-                        # may have been replaced in the meantime
-                        context(
-                            partial(
-                                setattr, reaction, "objective_coefficient", obj_coef
-                            )
+                    if self.solver.objective.is_Linear:
+                        coefs = self.solver.objective.get_linear_coefficients(
+                            [forward, reverse]
                         )
+                        coefs = (coefs[forward], coefs[reverse])
+                    else:
+                        obj_coef = reaction.objective_coefficient
+                        coefs = (obj_coef, -obj_coef)
+
+                    if coefs != (0, 0):
+
+                        def restore_objective(reaction=reaction, coefs=coefs):
+                            # resolve objective and variables when undoing, they
+                            # may have been replaced in the meantime
+                            self.solver.objective.set_linear_coefficients(
+                                {
+                                    reaction.forward_variable: coefs[0],
+                                    reaction.reverse_variable: coefs[1],
+                                }
+                            )
+
+                        context(restore_objective)
 
                     context(partial(self._populate_solver, [reaction]))
                     context(partial(setattr, reaction, "_model", self))
